@@ -59,7 +59,7 @@ def expected_safe(a):
 def check_model(m, acc, fam, k):
     case = {"fam": fam, "k": k, "ast": m}
     try:
-        obj, _ = bind(m)
+        obj, _ = bind(m, leaf_subclass=(k % 5 == 4))       # every fifth model over leaves of a user-defined subclass of puan.variable
         if is_var(obj) or obj.errors():
             acc.n("skipped_invalid")
             return
